@@ -130,6 +130,19 @@ def doReq (w : World) (c h method : String) : World × String :=
     | .error e => (w, "err " ++ e.name)
   | _, _ => (w, "bad-op")
 
+/-- `par` and `parraw` (the real side runs raw `_thread` workers; the model is the same) -/
+def doPar (w : World) (c ths sch : String) : World × String :=
+  match c.toNat?, parseThreads w ths, parseSched sch with
+  | some c', some threads, some sched =>
+    match w.conns[c']? with
+    | none => (w, "err " ++ Err.indexError.name)
+    | some cn => match w.par g cn.impl threads sched with
+      | .ok (w', out) =>
+        (w', "ok " ++ "|".intercalate (out.map fun t =>
+          if t.isEmpty then "." else "+".intercalate (t.map showSent)))
+      | .error e => (w, "err " ++ e.name)
+  | _, _, _ => (w, "bad-op")
+
 def handle (w : World) (line : String) : World × String :=
   match splitWs line with
   | ["reset"] => (World.empty, "ok")
@@ -179,17 +192,8 @@ def handle (w : World) (line : String) : World × String :=
       | .ok (w', _, _) => (w', "ok none none")
       | .error e => (w, "err " ++ e.name)
     | _, _ => (w, "bad-op")
-  | ["par", c, ths, sch] =>
-    match c.toNat?, parseThreads w ths, parseSched sch with
-    | some c', some threads, some sched =>
-      match w.conns[c']? with
-      | none => (w, "err " ++ Err.indexError.name)
-      | some cn => match w.par g cn.impl threads sched with
-        | .ok (w', out) =>
-          (w', "ok " ++ "|".intercalate (out.map fun t =>
-            if t.isEmpty then "." else "+".intercalate (t.map showSent)))
-        | .error e => (w, "err " ++ e.name)
-    | _, _, _ => (w, "bad-op")
+  | ["par", c, ths, sch] => doPar w c ths sch
+  | ["parraw", c, ths, sch] => doPar w c ths sch
   | ["enum", k, n, budget] =>
     match k.toNat?, n.toNat?, budget.toNat? with
     | some k', some n', some b =>
